@@ -140,6 +140,7 @@ def replay_history(args):
     fp = use_repo()
     import pandas as pd
     d = os.path.join(base, "h%d" % hid)
+    shutil.rmtree(d, ignore_errors=True)      # a re-run of this job (after a time-out) starts clean
     os.makedirs(d)
     out = {"hid": hid, "ops": [], "traces": [], "evals": 0}
     try:
